@@ -227,7 +227,11 @@ func (v *Decoder) walkNode(ectx evaluationContext, n *html.Node) error {
 					// test[0117.html] fragment must be dropped; not documented in specs?
 					baseURL.DropFragment()
 
-					ectx.BaseURL = baseURL
+					// a relative href was resolved against the location when the document was parsed
+					if baseURL.IsAbs() {
+						ectx.BaseURL = baseURL
+					}
+
 					ectx.Global.HtmlFoundBase = true
 				}
 			}
